@@ -9,7 +9,7 @@ RULE = ("sessions of 1-8 socket bufferevents with always-ready peers; per-buffer
         "non-trivial = some bucket's limit was binding (traffic >= half of rate*ticks); distinct = hash of the script")
 STEPS = [
     dict(flavor="asan", harness="h_bev2", args=["--mode", "ratelim"], cases=dict(quick=240, thorough=2400),
-         timeout=dict(quick=900, thorough=3400)),
+         timeout=dict(quick=900, thorough=9000)),
 ]
 REG = dict(
     category="exploration",
